@@ -520,4 +520,7 @@ func runC20(e *Engine, r *Report) {
 	ruleLogDBDirs(e, r)
 	ruleImportedAlwaysRecovered(e, r)
 	ruleTanRemoveAllFirst(e, r)
+	ruleTanInstallRemovesFirst(e, r)
+	ruleShardRouting(e, r)
+	ruleCreatedFileSync(e, r, 1, "tools")
 }
